@@ -233,27 +233,6 @@ def r2(ctx):
             ctx.violation(R, SETMASK + ':swap', 'partition loop does not exchange used entries forward (found %d swap loops)' % swaps, where(s.body))
 
 
-def loop_exits(s, l):
-    """edges leaving the loop: (from block, to block)"""
-    out = []
-    for b in l['blocks']:
-        for x in s.cfg.succ[b]:
-            if x in s.cfg.nodes and x not in l['blocks']:
-                out.append((b, x))
-    return out
-
-
-def ctrl_blocks(s, l):
-    """the loop header and the block that switches on the iterator's Option (the exhaustion test)"""
-    out = {l['header']}
-    nr = norm(l['next']['result'])
-    for b in l['blocks']:
-        c = s.switches.get(b)
-        if c is not None and c[0] == 'discr' and norm(c[1]) == nr:
-            out.add(b)
-    return out
-
-
 def r3(ctx):
     R = 'C14.R3'
     for key, desc in (('movegen::movegen::MoveGen::remove_move', 'move'), ('movegen::movegen::MoveGen::remove_mask', 'mask')):
